@@ -1706,6 +1706,8 @@ def canaries(unit):
         return {fn: fn + ".canary" for fn in ("reassociate_applications", "reassociate_products_and_quotients", "reassociate_sums_and_differences")}
     if unit == "resolve":
         return {fn: fn + ".canary" for fn in ("resolve_variables", "collect_definitions")}
+    if unit == "conv":
+        return {fn: fn + ".canary" for fn in ("syntactically_equal", "normalize_weak_head", "unify")}
     if unit == "packrat":
         # claim that everything is a `group` (and that a group is a `type`): false for every function
         return {}
